@@ -59,4 +59,9 @@ def write(spec, tier, seed, agg, wall, n_viol, known_lines):
     }
     with open(path, 'w') as f:
         json.dump(doc, f, indent=1, default=repr)
+    if tier != 'quick':
+        # keep the (much larger) thorough-tier record next to the per-change one, which the next quick run overwrites
+        os.makedirs(os.path.join(edir, tier), exist_ok=True)
+        with open(os.path.join(edir, tier, f'{spec.check_id}.json'), 'w') as f:
+            json.dump(doc, f, indent=1, default=repr)
     return path
